@@ -22,6 +22,9 @@ OUTLINE_HAND = [
     # lemmas that are not universally quantified implications; definitions whose quantifier list and argument list differ
     "lemma[e1]: exists X (p(X) and q(X)) or not exists X p(X). lemma[e2]: forall X (p(X) -> q(X)).",
     "lemma(forward)[e1]: exists X (q(X) and X > 0) or forall X (q(X) -> not p(X)). lemma[e2]: (forall X (p(X) -> q(X))) and (exists X q(X) or not exists X p(X)).",
+    "lemma[e1]: exists X (p(X) and q(X)).", "lemma(backward)[e1]: exists X (q(X) and not p(X)). lemma[e2]: forall X (p(X) -> q(X)).",
+    "lemma[e1]: forall Y exists X (q(Y) -> p(X) and q(X)).", "lemma(forward)[e1]: exists X Y (p(X) and q(Y) and X < Y).",
+    "inductive-lemma[e1]: forall N$i (N$i >= 0 -> exists X (q(X) and X > N$i) or not q(N$i + 1)). lemma[e2]: exists X (p(X) and X > 0).",
     "definition[e1]: forall X Y (d1(X) <-> t(X, Y)). lemma[e2]: forall X (d1(X) -> d1(X)).", "definition[e1]: forall X Y (d1(X) <-> q(X) and q(Y)).",
     "definition[e1]: forall X (d1(X, X) <-> q(X)).", "definition[e1]: forall X Y (d1(Y, X) <-> q(X) and Y = X). lemma[e2]: forall X (d1(X, X) <-> q(X)).",
     "inductive-lemma[e1]: forall N$i (N$i >= 0 -> forall X (X = N$i + 1 and q(X) -> p(X))). inductive-lemma[e2]: forall N$i (N$i >= 0 -> (exists N$i q(N$i)) or p(N$i) or not q(N$i)).",
